@@ -45,6 +45,7 @@ class BuiltinMixin:
     def is_concrete_iter(self, v):
         return isinstance(v, (VList, VTuple)) or (isinstance(v, VDict))
 
+
     def concrete_items(self, v):
         if isinstance(v, VDict):
             return [VStrConst(k) if isinstance(k, str) else VInt(k) for k in v.items]
@@ -155,6 +156,11 @@ class BuiltinMixin:
         """normalise things one can iterate over"""
         if isinstance(v, (VList, VTuple, VSeq, VHeapList, VDict)):
             return v
+        if isinstance(v, VStr):
+            try:
+                return VList([VStrConst(ch) for ch in py_const(v)], STR)
+            except KeyError:
+                return v       # symbolic string: iterated by index, one character at a time
         if isinstance(v, VClass) and v.ci.is_enum():
             consts = self.ctx.sorts.enum_consts[v.ci.name]
             return VList([VEnum(v.ci.name, c) for c in consts.values()], ENUM(v.ci.name))
@@ -340,6 +346,9 @@ class BuiltinMixin:
             return VReal(t) if t.sort() == z3.RealSort() else VInt(t)
         if name in ('any', 'all') and len(args) == 1:
             if gen is not None:
+                rx = self.char_class_quant(name == 'all', gen, path)
+                if rx is not None:
+                    return VBool(rx)
                 return VBool(self.gen_quant(name == 'all', gen, path))
             v = self.ev(args[0], path)
             if isinstance(v, (VList, VTuple)):
@@ -360,6 +369,39 @@ class BuiltinMixin:
         if name == 'len' and gen is None and len(args) == 1:
             return NotImplemented
         return NotImplemented
+
+    def char_class_quant(self, universal, gen, path):
+        """any/all over the characters of a symbolic string with a test `c in ALPHABET` / `c not in ALPHABET` against a
+        constant alphabet: stated as regular-expression membership (solvers decide that form; the quantified
+        substring form stays unknown, measured)"""
+        if len(gen.generators) != 1:
+            return None
+        g = gen.generators[0]
+        if g.ifs or not isinstance(g.target, ast.Name):
+            return None
+        e = gen.elt
+        if not (isinstance(e, ast.Compare) and len(e.ops) == 1 and isinstance(e.ops[0], (ast.In, ast.NotIn))
+                and isinstance(e.left, ast.Name) and e.left.id == g.target.id):
+            return None
+        src = self.ev(g.iter, path)
+        if not isinstance(src, VStr) or isinstance(src, VStrConst):
+            return None
+        alph = self.ev(e.comparators[0], path)
+        try:
+            chars = py_const(alph)
+        except KeyError:
+            return None
+        if not isinstance(chars, str) or not chars:
+            return None
+        inside = z3.Union(*[z3.Re(z3.StringVal(ch)) for ch in chars]) if len(chars) > 1 else z3.Re(z3.StringVal(chars))
+        all_in = z3.InRe(src.t, z3.Star(inside))
+        anych = z3.AllChar(z3.ReSort(z3.StringSort()))
+        some_in = z3.InRe(src.t, z3.Concat(z3.Star(anych), inside, z3.Star(anych)))
+        positive = isinstance(e.ops[0], ast.In)
+        self.ctx.assumptions.add('engine rule: "every character of s is in a constant alphabet" is encoded as regular-expression membership')
+        if universal:
+            return all_in if positive else z3.Not(some_in)
+        return some_in if positive else z3.Not(all_in)
 
     def minmax(self, name, gen, argnode, path, node, default):
         ctx = self.ctx
